@@ -57,10 +57,66 @@ def stepC01 (ts : List String) : String :=
     | _, _, _, _, _ => "bad-op"
   | _ => "bad-op"
 
+/-- files as `nf h1 d1 … ; ops…`; data bytes are their global stream index, header bytes are 1000000+k -/
+def mkFiles (hd : List (Nat × Nat)) : Stream.Files Nat :=
+  let rec go (l : List (Nat × Nat)) (base : Nat) : Stream.Files Nat :=
+    match l with
+    | [] => []
+    | (h, d) :: rest => ⟨(List.range h).map (· + 1000000), List.range' base d⟩ :: go rest (base + d)
+  go hd 0
+
+def pairs : List Nat → Option (List (Nat × Nat))
+  | [] => some []
+  | a :: b :: rest => (pairs rest).map ((a, b) :: ·)
+  | _ => none
+
+def parseOps : List String → Option (List Stream.Op)
+  | [] => some []
+  | "s0" :: o :: rest => do let o ← o.toInt?; let r ← parseOps rest; pure (.seek o 0 :: r)
+  | "s1" :: o :: rest => do let o ← o.toInt?; let r ← parseOps rest; pure (.seek o 1 :: r)
+  | "s2" :: o :: rest => do let o ← o.toInt?; let r ← parseOps rest; pure (.seek o 2 :: r)
+  | "cr" :: b :: rest => do let b ← b.toNat?; let r ← parseOps rest; pure (.cread b :: r)
+  | "ci" :: b :: rest => do let b ← b.toNat?; let r ← parseOps rest; pure (.creadinto b :: r)
+  | _ => none
+
+def showOut (o : Stream.Out Nat × Int) : String :=
+  match o with
+  | (.unit, p) => s!"u {p}"
+  | (.err e, p) => s!"e {e.name} {p}"
+  | (.bytes bs, p) => s!"b {bs.length} {showNats bs} {p}".replace "  " " "
+
+def stepC02 (ts : List String) : String :=
+  match ts with
+  | "run" :: nf :: rest =>
+    match nf.toNat? with
+    | none => "bad-op"
+    | some nf =>
+      match natList? (rest.take (2 * nf)) >>= pairs, parseOps (rest.drop (2 * nf)) with
+      | some hd, some ops =>
+        if hd.length ≠ nf then "bad-op" else
+        let fs := mkFiles hd
+        " ; ".intercalate ((Stream.runOps fs Stream.init ops).map showOut)
+      | _, _ => "bad-op"
+  | "rb" :: nf :: rest =>
+    match nf.toNat? with
+    | none => "bad-op"
+    | some nf =>
+      match natList? (rest.take (2 * nf)) >>= pairs, rest.drop (2 * nf) with
+      | some hd, [stride, ns, s, n] =>
+        match stride.toNat?, ns.toNat?, s.toInt?, n.toInt? with
+        | some stride, some ns, some s, some n =>
+          (match Stream.readBlock (mkFiles hd) stride ns s n with
+           | .ok bs => s!"b {bs.length} {showNats bs}".trimAsciiEnd.toString
+           | .error e => s!"e {e.name}")
+        | _, _, _, _ => "bad-op"
+      | _, _ => "bad-op"
+  | _ => "bad-op"
+
 def step (line : String) : String :=
   match (line.trimAscii.toString.splitOn " ").filter (· ≠ "") with
   | "C03" :: rest => stepC03 rest
   | "C01" :: rest => stepC01 rest
+  | "C02" :: rest => stepC02 rest
   | _ => "bad-op"
 
 partial def loop (h : IO.FS.Stream) (out : IO.FS.Stream) : IO Unit := do
